@@ -64,4 +64,10 @@ def generate(repo, ws, write_if_changed):
              dict(kind="trait", name="ExtendedHeaderExt"),
              dict(kind="impl", impl=r"impl ExtendedHeaderExt for ExtendedHeader"),
          ]))
+    emit("merkle_proof_c13.rs", slice_file(repo, "types/src/merkle_proof.rs", [
+        dict(kind="struct", name="MerkleProof", rewrite=[('#[derive(Debug, Clone, PartialEq, Serialize, Deserialize)]\n#[serde(try_from = "RawMerkleProof", into = "RawMerkleProof")]', '#[derive(Debug, Clone, PartialEq)] // serde derives removed by the slicer')]),
+        dict(kind="impl", impl=r"^impl MerkleProof$"),
+        dict(kind="fn", name="hash_leaves_collecting_aunts"),
+        dict(kind="fn", name="subtree_root_from_aunts"),
+    ]))
     return out
